@@ -88,3 +88,21 @@ Theorem sys0_kernel_differs : forall (S O : Type) (f : S -> O) (g : S -> S -> O)
   (forall s, g s s = f s) -> g s0 s1 <> f s1 ->
   kernel_out_sys0 g [s0; s1] <> kernel_out f [s0; s1].
 Proof. intros S O f g s0 s1 Hd Hne Heq. cbn in Heq. injection Heq as _ H. contradiction. Qed.
+
+(** blocks of a batched array *)
+
+Lemma block_index_injective_lemma : forall stride s s' i i', i < stride -> i' < stride ->
+  block_index stride s i = block_index stride s' i' -> s = s' /\ i = i'.
+Proof.
+  unfold block_index. intros stride s s' i i' Hi Hi' H.
+  assert (Hs : s = s').
+  { destruct (Nat.lt_trichotomy s s') as [Hlt|[Heq|Hgt]]; [|exact Heq|]; exfalso; nia. }
+  subst s'. split; [reflexivity|lia].
+Qed.
+
+Lemma block_index_in_bounds_lemma : forall stride n s i, s < n -> i < stride -> block_index stride s i < n * stride.
+Proof. unfold block_index. intros. nia. Qed.
+
+Lemma wrong_stride_aliases_lemma : forall stride stride', stride' < stride ->
+  block_index stride' 1 0 = block_index stride' 0 stride' /\ stride' < stride.
+Proof. unfold block_index. intros. split; lia. Qed.
